@@ -818,6 +818,11 @@ func (c *Conn) readRecordOrCCS(expectChangeCipherSpec bool) error {
 			if len(data) == 0 || expectChangeCipherSpec {
 				return c.in.setErrorLocked(c.sendAlert(alertUnexpectedMessage))
 			}
+			// 已有一条被延迟的 CCS（对端已发出 ChangeCipherSpec）：其后不得再有握手记录先于密钥切换被接受，
+			// 否则 CCS 与其后的明文握手消息（如 CertificateVerify）换位也能完成握手
+			if c.in.deferredCCS {
+				return c.in.setErrorLocked(c.sendAlert(alertUnexpectedMessage))
+			}
 			c.handBuf.Write(data)
 			// 如果还有未处理记录，继续循环处理
 			if len(c.rawInputBuf) > 0 {
